@@ -216,7 +216,14 @@ func genName(r *hx.Rand, cfg genCfg) string {
 	return hx.Pick(r, nameSafe)
 }
 
+// text literals longer than any display truncation (129, 200, 1000+ characters, multi-byte)
+var longTexts = []string{strings.Repeat("a", 129), strings.Repeat("ab ", 67), strings.Repeat("é", 130), strings.Repeat("x😀", 600),
+	strings.Repeat("0123456789", 13) + "END", strings.Repeat("名前 ", 300), strings.Repeat("q\"", 70)}
+
 func genTextLiteral(r *hx.Rand, cfg genCfg) string {
+	if r.Intn(25) == 0 {
+		return strconv.Quote(hx.Pick(r, longTexts))
+	}
 	switch k := r.Intn(12); {
 	case k < 5:
 		return strconv.Quote(hx.Pick(r, []string{"", "a", "hello world", "it's", "x y", "é😀", "名前", "(", ")", "@foo", "1", "a,b", "a\tb", "a\nb", "say \"hi\"", "c:\\dir", "\x01", "\u2028"}))
@@ -311,6 +318,12 @@ func genExpr(r *hx.Rand, d int, cfg genCfg) string {
 			return genName(r, cfg)
 		}
 	}
+	if r.Intn(18) == 0 {
+		return genLambdaCall(r, d, cfg)
+	}
+	if r.Intn(40) == 0 {
+		return genRescaledPower(r)
+	}
 	switch k := r.Intn(20); {
 	case k < 4:
 		return genAtom(r, d, cfg)
@@ -355,6 +368,69 @@ func genExpr(r *hx.Rand, d int, cfg genCfg) string {
 		return randCase(r, hx.Pick(r, []string{"true", "false", "null"}))
 	default:
 		return genAtom(r, d, cfg)
+	}
+}
+
+// an anonymous function whose parameters, written in upper/mixed case, are used in its body exactly as declared,
+// applied to an array (so that the body is evaluated with the parameters bound)
+func genLambdaCall(r *hx.Rand, d int, cfg genCfg) string {
+	params := []string{"Item", "iTem", "X", "x", "É", "Val_1", "ITEM"}
+	p1 := hx.Pick(r, params)
+	use := func(p string) string {
+		switch r.Intn(8) {
+		case 0:
+			return "upper(" + p + ")"
+		case 1:
+			return p + ws(r) + "&" + ws(r) + `"!"`
+		case 2:
+			return p + ws(r) + "*" + ws(r) + "2"
+		case 3:
+			return p + ".name"
+		case 4:
+			return "text_length(" + p + ") > 1"
+		case 5:
+			return "if(" + p + " = 2, " + p + ", " + genExpr(r, 0, cfg) + ")"
+		case 6:
+			return "(" + p + ")"
+		default:
+			return p
+		}
+	}
+	arr := hx.Pick(r, []string{"array(1, 2, 3)", `array("a", "bc", "def")`, `split("a b c", " ")`, "contact.items", "foo", `array(object("name", "n1"), object("name", "n2"))`})
+	switch r.Intn(4) {
+	case 0:
+		return "filter(" + arr + "," + ws(r) + "(" + p1 + ")" + ws(r) + "=>" + ws(r) + use(p1) + ")"
+	case 1:
+		// two parameters: foreach passes extra arguments to the function
+		p2 := hx.Pick(r, params)
+		if strings.EqualFold(p1, p2) {
+			p2 = "Other"
+		}
+		return "foreach(" + arr + ", (" + p1 + "," + ws(r) + p2 + ") => " + use(p1) + " & " + p2 + ", " + genExpr(r, 0, cfg) + ")"
+	case 2:
+		// nested: the inner function also refers to the outer parameter
+		p2 := hx.Pick(r, params)
+		if strings.EqualFold(p1, p2) {
+			p2 = "Inner"
+		}
+		return "foreach(" + arr + ", (" + p1 + ") => foreach(array(1, 2), (" + p2 + ") => " + use(p1) + " & " + use(p2) + "))"
+	default:
+		return "foreach(" + arr + "," + ws(r) + "(" + ws(r) + p1 + ws(r) + ")" + ws(r) + "=>" + ws(r) + use(p1) + ")"
+	}
+}
+
+// a number literal whose printed form has another scale (trailing / leading zeros), under a large power or a product
+func genRescaledPower(r *hx.Rand) string {
+	lit := hx.Pick(r, []string{"0.10", "1.50", "2.0", "0.500", "10.0", "001.250", "0.10000", "3.000"})
+	switch r.Intn(4) {
+	case 0:
+		return lit + " ^ " + hx.Pick(r, []string{"1000", "60000", "5000", "128"}) + hx.Pick(r, []string{"", " = 0", " > 1", " & \"\""})
+	case 1:
+		return lit + " * " + lit + " * " + hx.Pick(r, []string{"1000000", "0.0010", "3.0"})
+	case 2:
+		return "(" + lit + " ^ 200) * " + lit
+	default:
+		return lit + " ^ " + hx.Pick(r, []string{"2", "10", "64"}) + " / " + lit
 	}
 }
 
@@ -547,6 +623,24 @@ func classifyReparse(ti *treeInfo, printed string) string {
 	return ""
 }
 
+// rescaledUnderLargePower: the source has a number literal that is printed with another scale (trailing or leading
+// zeros) and a power with a literal exponent of at least 100
+func rescaledUnderLargePower(e string) bool {
+	toks := lexReal(e)
+	rescaled, bigPow := false, false
+	for i, t := range toks {
+		if t.Kind == "INTEGER" || t.Kind == "DECIMAL" {
+			if types.RequireXNumberFromString(t.Text).Describe() != t.Text {
+				rescaled = true
+			}
+			if i > 0 && toks[i-1].Kind == "EXPONENT" && len(t.Text) >= 3 && t.Kind == "INTEGER" {
+				bigPow = true
+			}
+		}
+	}
+	return rescaled && bigPow
+}
+
 // ---------------------------------------------------------------------------------------------
 
 const parseHeader = `From Coq Require Import List NArith Bool.
@@ -719,7 +813,11 @@ func main() {
 			}
 			if !sameValue(v1, v2) {
 				evalFailed = true
-				res.Fail("roundtrip:eval-differs:"+rootType(p), map[string]any{"expression": e, "printed": str, "context": types.NewXObject(ctx).Describe()},
+				cls := "roundtrip:eval-differs:" + rootType(p)
+				if rescaledUnderLargePower(e) {
+					cls = "roundtrip:eval-differs:rescaled-number-under-large-power"
+				}
+				res.Fail(cls, map[string]any{"expression": e, "printed": str, "context": types.NewXObject(ctx).Describe()},
 					fmt.Sprintf("%q evaluates to (err=%v) %s, its printed form %q to (err=%v) %s", e, v1.isErr, v1.desc, str, v2.isErr, v2.desc))
 				break
 			}
@@ -731,10 +829,13 @@ func main() {
 		`1 + 2 & 3 = 4`, `TRUE & FaLsE & NuLL`, `(x) => x`, `(a,B) => a & B`, `foreach(array(1,2), (x) => x * 2)`, `(x) => (y) => x + y`, `"a\\"`, `"a\x5c" & "b"`,
 		`"\w+"`, `"a\"b\q"`, "\"a\nb\"", `""`, `"é😀"`, `Ꭰ`, `K`, `İx`, `upper("a")`, `(foo)(1)`, `foo.bar(1)[2].x`, `a[b[c]]`, `(1)`, `((1))`, `1 +`, `(`, `)`, ``, ` `,
 		`foo bar`, `1.`, `.5`, `1..2`, `a.`, `a.b.`, `a[`, `f(,)`, `f(1,)`, `() => 1`, `(1) => 1`, `(x,) => 1`, `x => 1`, `"`, `"abc`, `a ! b`, `a == b`, `a => b`,
+		`foreach(array("a","b"), (Item) => upper(Item))`, `filter(array(1,2,3), (X) => X > 1)`, `foreach(array(1,2), (ITEM, Other) => ITEM & Other, "z")`,
+		`foreach(array(1,2), (Outer) => foreach(array(3), (Inner) => Outer * Inner))`, `0.10 ^ 60000 = 0`, `1.50 ^ 1000`, `2.0 ^ 100`, `1.10 * 1.10`, `0.10000 ^ 128 > 1`,
+		strconv.Quote(strings.Repeat("a", 129)), strconv.Quote(strings.Repeat("é", 130)) + ` & "x"`, `upper(` + strconv.Quote(strings.Repeat("ab ", 400)) + `)`,
 		`null.x`, `true(1)`, `1(2)`, `"a"(1)`, `"a".x`, `1.x`, `-x.y`, `-(x).y`, `- x ^ 2 * 3`, `a*b/c*d`, `a/(b*c)`, `a^-1`, `1 - -1`, `1--1`}
 	rcorp := r.Fork("corpus-ctx")
 	for _, c := range corpus {
-		doParse(c, !strings.Contains(c, "^") || len(c) < 12, rcorp)
+		doParse(c, true, rcorp)
 	}
 	nParse := o.Count(1200, 60000)
 	rp := r.Fork("parse")
